@@ -26,7 +26,7 @@ RULE = (
     "GetValue(own unit) returns the stored value for simple, derived and empty quantities. Second configuration: "
     "after the shipped table, a small project database that reuses its symbols with other factors is used in the "
     "same process and all its pairs x categories go through all routes (nothing may be remembered per symbol "
-    "across databases). Targets that have a legacy spelling are also asked for in that spelling (GetValue, CreateCopy, ChangeScalars, Array / FixedArray routes, db.Convert): same numbers, category and type of the source kept; FixedArray.ChangingIndex also with a (value, unit) pair and use_value_unit=False. Quantities and objects obtained while a project database was current are used after the shipped one is current again (flat and nested containers, objects built on the quantity, copies with new values): the quantity's own database converts. Before the sweep some symbols are offered for registration once more with other formulas (refused): their conversions are the same afterwards. Non-trivial = u!=v, "
+    "across databases); the same pairs go through every route of the shipped table before and after that sweep, and the sweep runs a second time afterwards. Targets that have a legacy spelling are also asked for in that spelling (GetValue, CreateCopy, ChangeScalars, Array / FixedArray routes, db.Convert): same numbers, category and type of the source kept; FixedArray.ChangingIndex also with a (value, unit) pair and use_value_unit=False. Quantities and objects obtained while a project database was current are used after the shipped one is current again (flat and nested containers, objects built on the quantity, copies with new values): the quantity's own database converts. Before the sweep some symbols are offered for registration once more with other formulas (refused): their conversions are the same afterwards. Non-trivial = u!=v, "
     "conversion not identity, x!=0, container non-empty; distinct key = (route, qt, u, v, category)."
 )
 ASSUMPTIONS = [
@@ -770,6 +770,27 @@ def check_objects_of_another_database(ctx):
 
 def variant_sweep(ctx, xs, ints):
     vdb = variant_db()
+
+    def shipped_pairs(tag):
+        # the very same (quantity type, unit, unit) pairs through every route of the shipped table, before and after
+        # the project database used them: whatever either database remembers per symbol must not reach the other
+        sdb = env.new_db("posc")
+        with env.pushed(sdb):
+            sch = Checker(ctx, sdb)
+            for qt in sorted(vdb.quantity_types):
+                us = [i.unit for i in vdb.quantity_types[qt]]
+                for u in us:
+                    for v in us:
+                        sch.check_pair({"qt": qt, "u": u, "v": v, "cat": sch.cats[qt][0], "xs": xs, "ints": ints, "config": "shipped_" + tag})
+                        ctx.cls("shipped_pairs_%s_the_variant_database" % tag)
+
+    shipped_pairs("before")
+    _variant_pairs(ctx, vdb, xs, ints)
+    shipped_pairs("after")
+    _variant_pairs(ctx, vdb, xs, ints)
+
+
+def _variant_pairs(ctx, vdb, xs, ints):
     with env.pushed(vdb):
         vch = Checker(ctx, vdb)
         for qt in sorted(vdb.quantity_types):
@@ -798,6 +819,15 @@ def replay(case, ctx):
         db = env.new_db("posc")
         with env.pushed(db):
             check_objects_of_another_database(ctx)
+        return ["%s: %s" % (k, v["msg"]) for k, v in ctx.violations.items()]
+    if str(case.get("config", "")).startswith("shipped_"):
+        # the project database uses the pair first, as in the sweep
+        vdb = variant_db()
+        with env.pushed(vdb):
+            Checker(core.Ctx(PID, "quick", 0), vdb).check_pair(dict(case, cat=case["qt"], config="variant"))
+        db = env.new_db("posc")
+        with env.pushed(db):
+            Checker(ctx, db).check_pair(case)
         return ["%s: %s" % (k, v["msg"]) for k, v in ctx.violations.items()]
     if case.get("config") == "variant":
         # the shipped table is used first in the same process, as in the sweep
